@@ -8,4 +8,4 @@ cd "$(dirname "$0")"
 cd lean
 lake build Cvss driver 2>&1 | tail -5
 # source tie (an addition to the registered tie: failing to build it must not fail the setup)
-lake build codedriver Cvss.Props.CodeTie2 Cvss.Props.CodeTie3 Cvss.Props.CodeTie4 Cvss.Props.CodeTie2Final Cvss.Props.CodeTie3Final 2>&1 | tail -3 || true
+lake build codedriver $(ls Cvss/Props/CodeTie*.lean | sed -e "s#/#.#g" -e "s#\.lean\$##") 2>&1 | tail -3 || true
